@@ -350,8 +350,8 @@ class MacIPAdvertisment(EVPN):
             value_hex += struct.pack('!B', len(ip_hex) * 8) + ip_hex
         else:
             value_hex += b'\x00'
-        if value.get('label'):
-            value_hex += cls.construct_mpls_label_stack(value['label'])
+        # MPLS Label1 is not optional (RFC 7432 section 7.2)
+        value_hex += cls.construct_mpls_label_stack(value['label'])
         return value_hex
 
 
